@@ -211,6 +211,7 @@ fn run_child(job: &Job, start: u64, end: u64, step: bool) -> ChildEnd {
     let mut last_p: Option<u64> = None;
     let mut result: Option<Local> = None;
     let mut hang: Option<u64> = None;
+    let mut leak: Option<u64> = None;
     let mut escaped = false;
     let r = BufReader::new(stdout);
     for line in r.lines() {
@@ -227,6 +228,8 @@ fn run_child(job: &Job, start: u64, end: u64, step: bool) -> ChildEnd {
             }
         } else if let Some(rest) = line.strip_prefix("HANG ") {
             hang = rest.trim().parse().ok();
+        } else if let Some(rest) = line.strip_prefix("LEAK ") {
+            leak = rest.trim().parse().ok();
         } else if line.starts_with("E ") {
             escaped = true;
         }
@@ -238,6 +241,10 @@ fn run_child(job: &Job, start: u64, end: u64, step: bool) -> ChildEnd {
     }
     if let Some(h) = hang {
         return ChildEnd::Died(Some(h), "hang".into(), "watchdog: case did not terminate".into());
+    }
+    if let Some(l) = leak {
+        let tail: String = err_text.lines().filter(|l| l.contains("#") || l.contains("leak")).take(10).collect::<Vec<_>>().join(" | ");
+        return ChildEnd::Died(Some(l), "asan:leak".into(), format!("LeakSanitizer: memory allocated during this history is not freed by the protocol's clean-up: {tail}"));
     }
     if status.success() {
         match result {
@@ -295,15 +302,25 @@ pub fn run_job(job: &Job) -> Local {
     // further hang (the evidence then says the job was not completed)
     let crashes = std::sync::atomic::AtomicUsize::new(0);
     super::par_for(chunks.len(), |ci, local| {
-        let (mut start, end) = chunks[ci];
-        while start < end {
+        // work list of ranges; a range whose fast run dies is halved until it is small enough to
+        // be single-stepped (single-step mode can be much slower than fast mode)
+        let mut work: Vec<(u64, u64)> = vec![chunks[ci]];
+        while let Some((mut start, end)) = work.pop() {
+          while start < end {
             if crashes.load(std::sync::atomic::Ordering::SeqCst) >= 3 {
                 local.count("chunks-skipped-after-crashes");
+                work.clear();
                 break;
             }
             match run_child(job, start, end, false) {
                 ChildEnd::Done(l) => {
                     local.merge(l);
+                    break;
+                }
+                ChildEnd::Died(_, _, _) if end - start > 48 => {
+                    let mid = start + (end - start) / 2;
+                    work.push((mid, end));
+                    work.push((start, mid));
                     break;
                 }
                 ChildEnd::Died(_, _, _) => {
@@ -336,6 +353,7 @@ pub fn run_job(job: &Job) -> Local {
                     }
                 }
             }
+          }
         }
     })
 }
